@@ -52,6 +52,31 @@ pub fn run_enum(name: &str, args: &[String], w: &mut dyn Write) -> bool {
         out
       });
     }
+    // the ordering/spacing clause evaluated on the implementation: for every term (year 1..=9999, index) `y i ok` where ok = the next
+    // term's instant is 14.6..15.8 days later and its civil day 14..16 days later (terms whose instant is not representable are skipped)
+    "c06.inc" => {
+      let years: Vec<i64> = (1..=9999).collect();
+      par_years(&years, w, |y| {
+        let mut out = String::new();
+        let inst = |yy: i64, ii: i64| -> Option<(i64, i64)> {
+          let r = guard(|| go("term.day", &[yy, ii]));
+          if r == REFUSED { return None; }
+          let f: Vec<i64> = r.split(' ').map(|x| x.parse().unwrap()).collect();
+          let d = solar_day(f[0], f[1], f[2])?;
+          Some((jdn_of(&d), f[3]))
+        };
+        for i in 0i64..24 {
+          let a = inst(y, i);
+          let b = if i == 23 { inst(y + 1, 0) } else { inst(y, i + 1) };
+          if let (Some((d1, s1)), Some((d2, s2))) = (a, b) {
+            let gap = (d2 - d1) * 86400 + s2 - s1;
+            let ok = (1261440..=1365120).contains(&gap) && (14..=16).contains(&(d2 - d1));
+            out.push_str(&format!("{} {} {}\n", y, i, ok as u8));
+          }
+        }
+        out
+      });
+    }
     // stepping and construction: for every (year, index) of the selected years and a fixed list of n
     "c06.next" => {
       let ns: [i64; 13] = [0, 1, -1, 2, -2, 23, 24, -24, 25, -25, 100, -100, 240001];
